@@ -1,3 +1,6 @@
 import JwtModel.Text
 import JwtModel.Wire
 import JwtModel.Subject
+import JwtModel.Revocation
+import JwtModel.Lists
+import JwtModel.Drive.Basic
